@@ -27,47 +27,6 @@ CONSTANTS Alphabet,     \* set of command records
 VARIABLES cmds, done, open, obs, phase
 bvars == <<cmds, done, open, obs, phase>>
 
-VReal(n, d) == [t |-> "real", n |-> n, d |-> d]
-VBool(x)    == [t |-> "int", x |-> x]
-BRec(nm, ks, vs) == [t |-> "rec", ks |-> ks, vs |-> vs, nm |-> nm]      \* nm = "" for unnamed
-BTup(vs) == [t |-> "rec", ks |-> TupleKeys(Len(vs)), vs |-> vs, nm |-> "(tuple)"]
-
-\* ---------------------------------------------------------------- unification of the values met at one position
-Positions(vals, P(_)) == Indexes(vals, P)
-RECURSIVE Unify(_)
-Unify(vals) ==
-  LET isL(v) == v.t = "list"
-      isR(v) == v.t = "rec"
-      li == Indexes(vals, isL)
-      \* all elements of all lists at this position form one position
-      flat == Flat([k \in 1..Len(li) |-> vals[li[k]].xs])
-      uflat == Unify(flat)
-      startOf(k) == SeqSum([m \in 1..(k - 1) |-> Len(vals[li[m]].xs)])
-      listAt(k) == VList(SubSeq(uflat, startOf(k) + 1, startOf(k) + Len(vals[li[k]].xs)))
-      \* record groups: same name and (for tuples) same arity
-      grp(v) == IF v.nm = "(tuple)" THEN <<v.nm, Len(v.ks)>> ELSE <<v.nm, 0>>
-      groups == {grp(vals[k]) : k \in {j \in 1..Len(vals) : isR(vals[j])}}
-      members(g) == Indexes(vals, LAMBDA v : isR(v) /\ grp(v) = g)
-      \* keys of a group in order of first appearance
-      keysOf(g) == LET ms == members(g)
-                       RECURSIVE acc(_, _)
-                       acc(k, ks) == IF k > Len(ms) THEN ks
-                                     ELSE acc(k + 1, ks \o Select(vals[ms[k]].ks, LAMBDA key : \A q \in 1..Len(ks) : ks[q] # key
-                                                                                               ))
-                   IN acc(1, <<>>)
-      \* NB: a key repeated inside one record cannot occur (that is an error before Unify is reached)
-      fieldOf(v, key) == IF \E q \in 1..Len(v.ks) : v.ks[q] = key
-                         THEN v.vs[CHOOSE q \in 1..Len(v.ks) : v.ks[q] = key] ELSE VNone
-      unifiedGroup(g) ==
-        LET ms == members(g)  ks == keysOf(g)
-            cols == [c \in 1..Len(ks) |-> Unify([m \in 1..Len(ms) |-> fieldOf(vals[ms[m]], ks[c])])]
-        IN [m \in 1..Len(ms) |-> BRec(vals[ms[m]].nm, ks, [c \in 1..Len(ks) |-> cols[c][m]])]
-      rankIn(seq, k) == CHOOSE r \in 1..Len(seq) : seq[r] = k
-  IN [k \in 1..Len(vals) |->
-        IF isL(vals[k]) THEN listAt(rankIn(li, k))
-        ELSE IF isR(vals[k]) THEN LET g == grp(vals[k]) IN unifiedGroup(g)[rankIn(members(g), k)]
-        ELSE vals[k]]
-
 Snapshot == VList(Unify(done))
 
 \* ---------------------------------------------------------------- frames
